@@ -75,5 +75,16 @@ CLAIMS = {
     note="Trusted: z3, the DSE shim, assumed contracts of np.digitize/np.linspace/np.sign; floats are reals; lengths fixed per configuration. Not covered "
          "deductively: fdepsd pipeline (lfilter/resampling), test-variance formulas.",
     technique="contracts checked on every path of the real functions by dynamic symbolic execution + z3; known-finding region carved out of two obligations; bounded fdepsd checks"),
+ "C02": dict(
+    text="The real SolveUnc.fsolve and FreqDirect.fsolve (uncoupled path) are executed on a fully symbolic 3-mode system [rigid, elastic, residual-flexibility] "
+         "with symbolic complex forces and frequencies (SolveUnc: including 0 Hz in the middle of the frequency vector) for all 8 incrb subsets x rf_disp_only x "
+         "m None/vector; every returned d, v, a entry is decided equal to the specification (dynamic-stiffness solution, v=iWd, a=-W^2 d, static rf rows, "
+         "rigid-body a=F/m with d, v switched by incrb and zero at 0 Hz) by an exact-rational 50-digit identity test of the symbolic outputs; the real solvepsd "
+         "(2 forces incl. a force that only feeds through, symbolic duf factors) equals sum_i PSD_i |H_i|^2 and rms^2 = trapezoidal area. Coupled paths "
+         "(scipy eig/solve, pre_eig) are bounded float checks.",
+    note="Trusted: sympy/mpmath, symbolic shims. Sizes fixed (3 modes, 2-3 frequencies), values symbolic; identity decided numerically at 4 random rational points "
+         "with 50 digits (a non-zero rational function vanishing at all of them is not excluded in principle). Floats are exact complex numbers.",
+    technique="real functions executed on symbolic inputs (concolic shim) against dynamic-stiffness specification; exact-rational multi-point identity testing; bounded float checks",
+    category="proof"),
 }
 NOT_APPLICABLE = {}
